@@ -209,7 +209,9 @@ Example C16_xls_nonvacuous :
   spec_names_xls ex_xlsn_c ex_xlsn_wb =
     [([110], [97; 233; 33; 66; 36; 49]);
      ([20013], [128512; 20013; 33; 36; 65; 36; 49; 58; 36; 90; 49; 48]);
-     ([101], [128512; 20013; 33; 35; 82; 69; 70; 33])].
+     (s_xlnm ++ [80; 114; 105; 110; 116; 95; 65; 114; 101; 97], [128512; 20013; 33; 35; 82; 69; 70; 33])] /\
+  (* the built-in name _xlnm.Print_Area is stored as its one-character id (fBuiltin) *)
+  lbl_units (s_xlnm ++ [80; 114; 105; 110; 116; 95; 65; 114; 101; 97]) (mkLn false 33 0 1) = [6].
 Proof. exact xlsn_nonvacuous. Qed.
 
 Example C16_ods_nonvacuous :
